@@ -27,6 +27,8 @@ def build_atom(spec, cache):
         return d.get_boundary(axis=spec["axis"], ext=spec["ext"])
     if t == "bnd":    # a free-standing Boundary of an abstract domain
         d = Domain(spec["dom"], dim=spec["dim"])
+        if "axis" in spec:
+            return Boundary(spec["name"], d, axis=spec["axis"], ext=spec["ext"])
         return Boundary(spec["name"], d)
     if t == "iface":
         m = build_atom(spec["minus"], cache)
